@@ -331,6 +331,8 @@ def correspondence(ctx, rng, drv, state):
         for dim in (1, 2, 3):
             opts = opt_values(name, dim, rng, ctx.tier)
             lags_d, nbp = plan(name, dim, ctx.tier, lags)
+            if ctx.tier != "thorough" and lags_d is LAGS_SHORT:
+                opts = opts[::2]        # quick, secondary dimensions: every other optional-argument set
             for oi, opt in enumerate(opts):
                 p = slots(name, opt)
                 try:
@@ -534,13 +536,15 @@ def viol(ctx, stage, what, case, key):
 
 
 def probes(ctx, rng, drv=None):
-    probe_history(ctx, rng, drv)
-    probe_dim_constructions(ctx, rng, drv)
-    probe_closed_forms(ctx, rng)
-    probe_identities(ctx, rng)
-    probe_user_subclasses(ctx, rng)
-    probe_scales(ctx, rng)
-    probe_variants(ctx, rng)
+    import time
+    times = []
+    for fn, args in ((probe_history, (drv,)), (probe_dim_constructions, (drv,)), (probe_axis_kinds, (drv,)),
+                     (probe_prescribed_integral_scale, (drv,)), (probe_near_special_orders, (drv,)), (probe_scale_equivariance, (drv,)),
+                     (probe_closed_forms, ()), (probe_identities, ()), (probe_user_subclasses, ()), (probe_scales, ()), (probe_variants, ())):
+        t = time.time()
+        fn(ctx, rng, *args)
+        times.append("%s %.0f" % (fn.__name__[6:], time.time() - t))
+    ctx.notes.append("probe seconds: " + ", ".join(times))
 
 
 
@@ -617,6 +621,304 @@ def probe_dim_constructions(ctx, rng, drv):
                                  dict(cls=name, build=kw, dim=dim, opt=opt, h=h, r=float(ri), impl=[float(c), float(g), float(ch)], model=[got[0], got[2], gc]),
                                  "%s:model-dim" % name)
                             break
+
+
+# ----------------------------------------------------------------------------------------------- *_axis for every model kind
+MODEL_KINDS = [dict(dim=1), dict(dim=2), dict(dim=3), dict(temporal=True, spatial_dim=1), dict(temporal=True, spatial_dim=2),
+               dict(temporal=True, spatial_dim=3), dict(latlon=True), dict(latlon=True, temporal=True)]
+
+
+def probe_axis_kinds(ctx, rng, drv):
+    """vario_axis / cov_axis / cor_axis for EVERY axis of every model kind (plain, temporal, lat-lon, lat-lon + temporal),
+    anisotropy ratio != 1 on every axis that can have one: the value is the isotropic function of |r| / anis[axis-1]
+    (theorem C03_variants_axis); the time ratio of temporal models must survive the construction"""
+    import gstools as gs
+    for name, code, _ in CLASSES:
+        for kw in MODEL_KINDS:
+            d = kw.get("dim", 3 if kw.get("latlon") else kw.get("spatial_dim", 0) + 1)
+            d += int(bool(kw.get("latlon") and kw.get("temporal")))
+            anis_in = [float(np.exp(rng.uniform(0.4, 1.5) * rng.choice([-1, 1]))) for _ in range(d - 1)]
+            try:
+                m = getattr(gs, name)(var=1.7, len_scale=1.3, nugget=0.2, anis=anis_in if anis_in else 1.0, **kw)
+            except Exception as e:
+                viol(ctx, "axis variants", "%s(%s) raised %r" % (name, kw, e), dict(cls=name, build=kw), "%s:construction-exception" % name)
+                continue
+            anis = [float(a) for a in m.anis]
+            want_anis = list(anis_in)
+            if kw.get("latlon"):
+                want_anis = [1.0, 1.0] + (anis_in[-1:] if kw.get("temporal") else [])
+            if int(m.dim) != d or not np.allclose(anis, want_anis, rtol=1e-14, atol=0):
+                viol(ctx, "axis variants", "%s(%s, anis=%r): dim %d, anis %r, expected dim %d, anis %r" % (name, kw, anis_in, m.dim, anis, d, want_anis),
+                     dict(cls=name, build=kw, anis_given=anis_in, anis=anis, dim=int(m.dim)), "%s:anis-kept" % name)
+                continue
+            opt = {o: float(getattr(m, o)) for o in m.opt_arg}
+            p = slots(name, opt)
+            pre = [("z", code), p[0], p[1], p[2], ("z", d), float(m.var), float(m.len_scale), float(m.nugget), float(m.rescale)]
+            sill = m.var + m.nugget
+            r = np.array([0.3, -0.7, 1e-9, 2.0]) * m.len_rescaled
+            for axis in range(d):
+                fac = 1.0 if axis == 0 else anis[axis - 1]
+                lag = r if axis == 0 else np.abs(r) / fac
+                for tag, fa, iso, sc in (("cor", m.cor_axis, m.correlation, 1.0), ("cov", m.cov_axis, m.covariance, sill), ("vario", m.vario_axis, m.variogram, sill)):
+                    with np.errstate(all="ignore"):
+                        a, b = np.asarray(fa(r, axis), dtype=float), np.asarray(iso(lag), dtype=float)
+                    ctx.count(("axis-kind", name, tuple(sorted(kw.items())), axis, tag), n=len(r), hist=dict(stage="probe:axis-kinds", cls=name, kind=str(sorted(kw))))
+                    fin = np.isfinite(a) & np.isfinite(b)
+                    if not (np.abs(a - b)[fin] <= 1e-12 * sc).all() or (np.isfinite(a) != np.isfinite(b)).any():
+                        i = int(np.argmax(np.where(fin, np.abs(a - b), np.inf)))
+                        viol(ctx, "axis variants", "%s(%s): %s_axis(r=%g, axis=%d) = %r but the isotropic function of |r|/anis[%d] (anis=%r) is %r"
+                             % (name, kw, tag, r[i], axis, float(a[i]), axis - 1, anis, float(b[i])),
+                             dict(cls=name, build=kw, anis=anis, axis=axis, r=float(r[i]), got=float(a[i]), want=float(b[i])), "%s:axis-variant" % name)
+                        break
+                if drv is not None:
+                    for ri in r:
+                        got = drv.call("axis", *pre, np.array(anis + [1.0]), ("n", axis), float(ri))
+                        with np.errstate(all="ignore"):
+                            want = (f1(m.cor_axis(np.array([ri]), axis)), f1(m.cov_axis(np.array([ri]), axis)), f1(m.vario_axis(np.array([ri]), axis)))
+                        if not (same(want[0], got[0]) and same(want[1], got[1], sill) and same(want[2], got[2], sill)):
+                            viol(ctx, "axis variants", "%s(%s): *_axis(r=%g, axis=%d) implementation %r, model %r" % (name, kw, ri, axis, want, got),
+                                 dict(cls=name, build=kw, anis=anis, axis=axis, r=float(ri), impl=want, model=list(got)), "%s:model-axis-variant" % name)
+                            break
+
+
+# ----------------------------------------------------------------------------------------------- prescribed integral scale
+SETTER_RTOL, SETTER_ATOL = 1e-3, 1e-8      # np.isclose(self.integral_scale, integral_scale, rtol=1e-3) in the setter
+
+
+def probe_prescribed_integral_scale(ctx, rng, drv):
+    """integral_scale prescribed through the constructor and the setter, scalar and list, every class; TPL classes with
+    len_low over a geometric range.  Theorem C03_integral_scale_setter_accepts_iff instantiated with calc = the table
+    integral of the documented correlation: the call must be accepted iff the candidate len_scale = target / calc(1) gives a
+    scale within 1e-8 + 1e-3 |target| of the prescribed one; when accepted, the reported scale AND the integral of the
+    correlation of the resulting model are within that tolerance (tight tolerances where the scale is proportional)"""
+    import gstools as gs
+    mp, doc_cor, doc_correlation = doc_formulas()
+    mp.mp.dps = 30
+    ratios = [10.0 ** (-k / 2.0) for k in range(0, 13)] if ctx.tier == "thorough" else [1e-6, 1e-4, 1e-3, 3e-3, 1e-2, 3e-2, 0.1, 0.3, 1.0]
+    for name, code, _ in CLASSES:
+        if name == "JBessel":
+            continue        # quadrature of the oscillating correlation (open finding JBessel:integral-scale-quad)
+        dim = primary_dim(name)
+        cases = []
+        if name in TPL:
+            for hi, hurst in enumerate((0.11, 0.5, 0.9) if ctx.tier == "thorough" else (0.11, 0.6)):
+                for qi, q in enumerate(ratios):
+                    if ctx.tier != "thorough" and (qi + hi) % 2:
+                        continue            # quick: the two Hurst values share the len_low grid alternately
+                    o = dict(hurst=hurst, len_low=q)        # target ~ 1: len_low relative to the resulting len_scale ~ q
+                    if name == "TPLStable":
+                        o["alpha"] = float(rng.choice([0.5, 1.5, 2.0]))
+                    cases.append(o)
+            cases.append(dict(hurst=0.5, len_low=0.0, **({"alpha": 1.5} if name == "TPLStable" else {})))
+        else:
+            opts = opt_values(name, dim, rng, "quick")
+            cases = [opts[0], opts[-1]] if len(opts) > 1 else opts
+        for opt in cases:
+            if name == "Rational" and opt["alpha"] <= 0.5:
+                continue
+            target = float(np.exp(rng.uniform(-0.7, 0.7)))
+            resc = float(rng.choice([1.0, 0.8]))
+
+            def scale_of(len_scale):
+                """integral of the documented correlation of the class with this len_scale (table integrals)"""
+                if name in TPL:
+                    return float(exact_integral_tpl(name, opt, len_scale, resc, mp))
+                return float(exact_integral(name, opt, dim, mp, doc_cor)) * len_scale / resc
+            cand = target / scale_of(1.0)
+            dev = abs(scale_of(cand) - target)
+            tol = SETTER_ATOL + SETTER_RTOL * target
+            hows = ("constructor", "setter", "constructor-list", "setter-list")
+            if name in TPL:      # quadrature classes are slow: alternate the entry point along the len_low grid (quick), list forms once
+                k = cases.index(opt)
+                hows = ((hows[k % 2],) if ctx.tier != "thorough" else hows[:2]) if k < len(cases) - 1 else hows
+            for how in hows:
+                d = dim if not how.endswith("list") else max(dim, 2)
+                tval = target if not how.endswith("list") else [target] + [0.6 * target] * (d - 1)
+                try:
+                    with np.errstate(all="ignore"):
+                        if how.startswith("constructor"):
+                            m = make(name, d, opt, 1.7, 0.37, 0.2, resc, integral_scale=tval)
+                        else:
+                            m = make(name, d, opt, 1.7, 0.37, 0.2, resc)
+                            m.integral_scale = tval
+                        rep = float(m.integral_scale)
+                        vec = np.asarray(m.integral_scale_vec, dtype=float)
+                    raised = None
+                except ValueError as e:
+                    raised = str(e)
+                ctx.count(("prescribe", name, tuple(sorted(opt.items())), how), hist=dict(stage="probe:prescribed-integral-scale", cls=name, how=how))
+                case = desc(name, d, opt, (1.7, 0.37, 0.2, resc), how=how, integral_scale=tval, candidate_len_scale=cand,
+                            scale_of_candidate=scale_of(cand), acceptance_tolerance=tol)
+                ctx.dist.setdefault("prescribe-outcome", {})
+                oc = "refused" if raised is not None else "accepted"
+                ctx.dist["prescribe-outcome"][oc] = ctx.dist["prescribe-outcome"].get(oc, 0) + 1
+                if raised is not None:
+                    if dev < 0.9 * tol:
+                        viol(ctx, "prescribed integral scale", "%s (%s): integral_scale=%r refused (%s) although len_scale=%r gives %r (within %g)"
+                             % (name, how, tval, raised, cand, scale_of(cand), tol), case, "%s:integral-scale-refused" % name)
+                    continue
+                if dev > 1.1 * tol:
+                    viol(ctx, "prescribed integral scale",
+                         "%s (%s): integral_scale=%r accepted, model reports %r, but the integral of its correlation is %r: off by %.3g > documented acceptance 1e-8 + 1e-3*|target| (a ValueError is due)"
+                         % (name, how, tval, rep, scale_of(float(m.len_scale)), dev), dict(case, reported=rep, len_scale=float(m.len_scale)), "%s:integral-scale-accepted-beyond-tolerance" % name)
+                    continue
+                prop = not (name in TPL and opt.get("len_low", 0) > 0)
+                # proportional classes: closed forms to rounding, quadrature classes 1e-4 (see probe_scales); else the documented acceptance
+                t_rep = (1e-9 if code <= 5 else 1e-4) * target if prop else 1.05 * tol
+                true_int = scale_of(float(m.len_scale))
+                if not (abs(rep - target) <= t_rep and abs(true_int - target) <= max(t_rep, 1.05 * tol if not prop else 0)):
+                    key = matern_gt20_key(opt, rep, float(m.len_rescaled), mp) if (name == "Matern" and opt["nu"] > 20) else "%s:integral-scale-setter" % name
+                    viol(ctx, "prescribed integral scale", "%s (%s): integral_scale=%r prescribed; model reports %r, integral of its correlation %r"
+                         % (name, how, tval, rep, true_int), dict(case, reported=rep, integral_of_correlation=true_int, len_scale=float(m.len_scale)), key)
+                    continue
+                if how.endswith("list"):
+                    want = np.array([target] + [0.6 * target] * (d - 1))
+                    if not np.allclose(vec, want * (rep / target), rtol=1e-12) or not np.allclose(np.asarray(m.anis, dtype=float), 0.6, rtol=1e-12):
+                        viol(ctx, "prescribed integral scale", "%s (%s): integral_scale=%r gives integral_scale_vec %r, anis %r" % (name, how, tval, vec.tolist(), list(m.anis)),
+                             dict(case, integral_scale_vec=vec.tolist(), anis=[float(a) for a in m.anis]), "%s:integral-scale-list" % name)
+                if drv is not None and code <= 5 and not how.endswith("list"):
+                    ml = drv.call("set_intscale", ("z", code), slots(name, opt)[0], resc, target)
+                    if ml is None or not same(float(m.len_scale), ml):
+                        viol(ctx, "prescribed integral scale", "%s (%s): len_scale %r after prescribing %r, model %r" % (name, how, float(m.len_scale), target, ml),
+                             case, "%s:model-integral-scale-setter" % name)
+
+
+# ----------------------------------------------------------------------------------------------- orders next to integers / half-integers
+NEAR_LAGS = [1e-6, 1e-3, 0.1, 0.5, 1.0, 2.0, 5.0]
+
+
+def near_special_cases(tier):
+    """(class, optional arguments, description) with every special-function order of the models approaching an integer or
+    half-integer geometrically: |order - n| = 10^-j"""
+    js = range(1, 13) if tier == "thorough" else (1, 4, 5, 6, 9, 12)
+    out = []
+    for j in js:
+        d = 10.0 ** -j
+        for sg in (1.0, -1.0):
+            e = sg * d
+            for n in (2, 7):                               # Integral: E_s with s = 1 + nu/2 = n +- d
+                out.append(("Integral", dict(nu=2 * (n - 1) + 2 * e), "s=%d%+.0e" % (n, e)))
+            out.append(("TPLExponential", dict(hurst=0.5 * (1 + e), len_low=0.0), "s=2%+.0e" % e))      # s = 1 + 2H
+            out.append(("TPLExponential", dict(hurst=0.5 * (1 + e), len_low=0.3), "s=2%+.0e" % e))
+            out.append(("TPLStable", dict(hurst=0.25 * (1 + e), alpha=0.5, len_low=0.0), "s=2%+.0e" % e))   # s = 1 + 2H/alpha
+            for c in (0.5, 1.0, 2.5):                      # Matern: K_nu, Gamma(nu)
+                out.append(("Matern", dict(nu=c + e), "nu=%g%+.0e" % (c, e)))
+            for c in (0.5, 1.0, 2.0):                      # JBessel: J_nu, Gamma(nu + 1)
+                out.append(("JBessel", dict(nu=c + e), "nu=%g%+.0e" % (c, e)))
+            for c in (1.0, 1.5, 2.0):                      # SuperSpherical: 2F1(1/2, -nu; 3/2; .)
+                out.append(("SuperSpherical", dict(nu=c + e), "nu=%g%+.0e" % (c, e)))
+            out.append(("Stable", dict(alpha=1.0 + e), "alpha=1%+.0e" % e))
+            out.append(("Rational", dict(alpha=1.0 + e), "alpha=1%+.0e" % e))
+        out.append(("TPLGaussian", dict(hurst=1.0 - d, len_low=0.0), "s=2-%.0e" % d))                     # s = 1 + H
+        out.append(("Rational", dict(alpha=0.5 + d), "alpha=0.5+%.0e" % d))                               # Gamma(alpha - 1/2)
+    return out
+
+
+def probe_near_special_orders(ctx, rng, drv):
+    mp, doc_cor, doc_correlation = doc_formulas()
+    for name, opt, what in near_special_cases(ctx.tier):
+        code = CODE[name]
+        dim = 1
+        try:
+            m = make(name, dim, opt, 1.7, 1.3, 0.2, 0.8)
+            r = np.array(NEAR_LAGS) * m.len_rescaled
+            with np.errstate(all="ignore"):
+                corr = np.asarray(m.correlation(r), dtype=float)
+        except Exception as e:
+            viol(ctx, "orders near integers", "%s(%s) raised %r" % (name, opt, e), desc(name, dim, opt), "%s:exception" % name)
+            continue
+        p = slots(name, opt)
+        pre = [("z", code), p[0], p[1], p[2], ("z", dim), float(m.var), float(m.len_scale), float(m.nugget), float(m.rescale)]
+        for h, ri, c in zip(NEAR_LAGS, r, corr):
+            ctx.count(("near", name, what, h), hist=dict(stage="probe:orders-near-integers", cls=name))
+            ref = doc_correlation(name, ri, opt, dim, m.len_scale, m.rescale)
+            e_c = abs(float(mp.mpf(float(c)) - ref)) if np.isfinite(c) else np.inf
+            if e_c > TOL:
+                viol(ctx, "orders near integers", "%s with %s (%s): correlation %r at h=%g, documented %s" % (name, opt, what, float(c), h, mp.nstr(ref, 17)),
+                     desc(name, dim, opt, (1.7, 1.3, 0.2, 0.8), h=h, r=float(ri), correlation=float(c), documented_correlation=mp.nstr(ref, 30), order=what),
+                     finding_key(name, opt, h, float(c), m))
+                break
+            if drv is not None:
+                got = drv.call("funcs", *pre, float(ri))
+                if not same(c, got[0]):
+                    viol(ctx, "orders near integers", "%s with %s (%s): implementation %r and model %r differ at h=%g" % (name, opt, what, float(c), got[0], h),
+                         desc(name, dim, opt, (1.7, 1.3, 0.2, 0.8), h=h, r=float(ri), impl=float(c), model=got[0]), "%s:model-near-special-order" % name)
+                    break
+        # closed-form integral scales next to the poles / special values of their Gamma and Beta factors
+        if code <= 5 and not (name == "Rational" and opt["alpha"] <= 0.5):
+            ref = exact_integral(name, opt, dim, mp, doc_cor) * m.len_rescaled
+            got = float(m.integral_scale)
+            # Rational alpha -> 1/2: the scale ~ 1/(alpha - 1/2) has condition number 1/(2 (alpha - 1/2)) w.r.t. rounding of alpha - 0.5
+            cond = max(1.0, 1.0 / abs(opt["alpha"] - 0.5)) if name == "Rational" else 1.0
+            if not abs(got - float(ref)) <= (1e-9 + 4e-16 * cond) * float(ref):
+                viol(ctx, "orders near integers", "%s with %s (%s): integral_scale %r, integral of the documented correlation %s" % (name, opt, what, got, mp.nstr(ref, 17)),
+                     desc(name, dim, opt, (1.7, 1.3, 0.2, 0.8), integral_scale=got, integral_of_correlation=mp.nstr(ref, 25)),
+                     matern_gt20_key(opt, got, m.len_rescaled, mp) if (name == "Matern" and opt["nu"] > 20) else "%s:integral-scale" % name)
+
+
+# ----------------------------------------------------------------------------------------------- scale equivariance
+SCALES = [1e-6, 1e-4, 1e-2, 1.0, 1e2, 1e4, 1e6, 1e8]
+
+
+def probe_scale_equivariance(ctx, rng, drv):
+    """len_scale (and len_low of the TPL classes) multiplied by L in 1e-6 .. 1e8: every derived scale quantity is L times its
+    value at L = 1 and the functions of r / L are unchanged (theorem C03_scale_equivariance)"""
+    hs = np.array([0.0, 1e-3, 0.2, 0.9, 1.0, 2.5])
+    for name, code, _ in CLASSES:
+        dim = primary_dim(name)
+        opts = opt_values(name, dim, rng, "quick")
+        picks = [opts[0], opts[len(opts) // 2]] if len(opts) > 1 else opts
+        if ctx.tier == "thorough" and len(opts) > 2:
+            picks.append(opts[-1])
+        for opt in picks:
+            if name == "Rational" and opt["alpha"] <= 0.5:
+                continue
+
+            def build(L):
+                o = dict(opt)
+                if "len_low" in o:
+                    o["len_low"] = o["len_low"] * L
+                return make(name, dim, o, 1.7, 1.3 * L, 0.2, 0.8)
+            try:
+                m1 = build(1.0)
+                with np.errstate(all="ignore"):
+                    base = dict(integral_scale=float(m1.integral_scale), percentile_scale=float(m1.percentile_scale(0.5)),
+                                len_rescaled=float(m1.len_rescaled), correlation=np.asarray(m1.correlation(hs * m1.len_rescaled), dtype=float))
+            except Exception as e:
+                viol(ctx, "scale equivariance", "%s raised %r at len_scale 1.3" % (name, e), desc(name, dim, opt), "%s:exception" % name)
+                continue
+            for L in (SCALES if ctx.tier == "thorough" else (1e-6, 1e-4, 1.0, 1e6, 1e8)):
+                try:
+                    m = build(L)
+                    with np.errstate(all="ignore"):
+                        got = dict(integral_scale=float(m.integral_scale), percentile_scale=float(m.percentile_scale(0.5)),
+                                   len_rescaled=float(m.len_rescaled), correlation=np.asarray(m.correlation(hs * m.len_rescaled), dtype=float))
+                except Exception as e:
+                    viol(ctx, "scale equivariance", "%s raised %r at len_scale %g" % (name, e, 1.3 * L), desc(name, dim, opt, L=L), "%s:exception" % name)
+                    continue
+                ctx.count(("equivariance", name, tuple(sorted(opt.items())), L), n=4, hist=dict(stage="probe:scale-equivariance", cls=name))
+                # identical normalised integrand / root problem: only rounding of h * L / L differs; root: xtol 1.5e-8
+                tol = dict(integral_scale=1e-6 if name == "JBessel" else 1e-9, percentile_scale=1e-6, len_rescaled=1e-14)
+                for q in ("integral_scale", "percentile_scale", "len_rescaled"):
+                    a, b = got[q], L * base[q]
+                    okq = (np.isfinite(a) and abs(a - b) <= tol[q] * abs(b)) or (not np.isfinite(b) and not np.isfinite(a))
+                    if not okq and q == "percentile_scale" and name in ROOT_FAILS:
+                        continue        # unchecked root (known finding): not a question of scale
+                    if not okq:
+                        viol(ctx, "scale equivariance", "%s: %s = %r at len_scale %g but %g x (value at len_scale 1.3) = %r" % (name, q, a, 1.3 * L, L, b),
+                             desc(name, dim, opt, (1.7, 1.3 * L, 0.2, 0.8), L=L, quantity=q, got=a, expected=b), "%s:scale-equivariance:%s" % (name, q))
+                fin = np.isfinite(base["correlation"]) & np.isfinite(got["correlation"])
+                if not (np.abs(got["correlation"] - base["correlation"])[fin] <= TOL).all():
+                    i = int(np.argmax(np.where(fin, np.abs(got["correlation"] - base["correlation"]), 0)))
+                    viol(ctx, "scale equivariance", "%s: correlation(h * len_rescaled) at len_scale %g differs from the one at len_scale 1.3" % (name, 1.3 * L),
+                         desc(name, dim, opt, (1.7, 1.3 * L, 0.2, 0.8), L=L, h=float(hs[i]), got=float(got["correlation"][i]), expected=float(base["correlation"][i])),
+                         "%s:scale-equivariance:correlation" % name)
+                if drv is not None and code <= 5:
+                    p = slots(name, opt)
+                    mi = drv.call("intscale", ("z", code), p[0], float(m.len_rescaled))
+                    if mi is None or not same(got["integral_scale"], mi):
+                        viol(ctx, "scale equivariance", "%s: integral_scale %r differs from the model %r at len_scale %g" % (name, got["integral_scale"], mi, 1.3 * L),
+                             desc(name, dim, opt, L=L), "%s:model-integral-scale" % name)
 
 
 # ----------------------------------------------------------------------------------------------- histories on ONE object
